@@ -17,7 +17,7 @@ import hashlib
 import io
 import itertools
 
-from .. import world, transforms
+from .. import world, transforms, common
 from ..common import Violation, HarnessError
 from ..blifref import BlifRef, BenchRef
 
@@ -299,15 +299,28 @@ def gen_case(streams, tier):
         s.shuffle(morder)
     ins = [i for i in models[0]['inputs'] if i != 'clk']
     tape = [{i: streams['inputs'].randrange(2) for i in ins} for _ in range(ncyc)]
+    f = streams['faults']
+    fail_first = None
+    if f.random() < 0.3:
+        # a broken variant of the same file (one malformed cover at the end of one model) is
+        # offered first and must be refused; the real import follows in the same process
+        fail_first = {'model': f.randrange(len(models)), 'kind': f.choice(['offset', 'malrow'])}
     return {'prop': ID, 'fmt': 'blif', 'models': models, 'orders': orders, 'morder': morder,
             'merge': g.random() < 0.5, 'as_file': g.random() < 0.5, 'tape': tape,
+            'fail_first': fail_first,
             'sched': world.gen_sched(streams, with_iter=False)}
 
 
-def blif_text(case):
+def blif_text(case, broken=None):
     parts = []
     for mi in case['morder']:
-        parts.append(model_text(case['models'][mi], case['orders'][mi]))
+        t = model_text(case['models'][mi], case['orders'][mi])
+        if broken is not None and mi == broken['model'] % len(case['models']):
+            m = case['models'][mi]
+            src = (m['inputs'] + ['zz_x'])[0]
+            bad = ['.names %s zz_bad' % src, '0 0' if broken['kind'] == 'offset' else '1 1 1']
+            t = t[:-len('.end')] + '\n'.join(bad) + '\n.end'
+        parts.append(t)
     return '\n\n'.join(parts) + '\n'
 
 
@@ -328,6 +341,19 @@ def run(case, res):
     nfree = probe.count_free_latches()
     if nfree > 3:
         return None
+    if case.get('fail_first'):
+        scratch = pyrtl.Block()
+        pyrtl.set_working_block(scratch, no_sanity_check=True)
+        try:
+            with transforms.quiet():
+                pyrtl.input_from_blif(blif_text(case, case['fail_first']), block=scratch,
+                                      merge_io_vectors=case['merge'], top_model='top')
+        except pyrtl.PyrtlError:
+            res.faults.hit('malformed_file_refused_first')
+        else:
+            raise common.Inconclusive('the malformed BLIF was accepted')
+        finally:
+            pyrtl.set_working_block(blk, no_sanity_check=True)
     try:
         src = io.StringIO(text) if case['as_file'] else text
         with transforms.quiet():
@@ -486,6 +512,10 @@ def _fanin_wide_gate(ref, out):
 
 def candidates(case):
     tape = case['tape']
+    if case.get('fail_first'):
+        c = copy.deepcopy(case)
+        c['fail_first'] = None
+        yield c
     for k in range(len(tape) - 1, 0, -1):
         c = copy.deepcopy(case)
         c['tape'] = tape[:k]
